@@ -179,6 +179,10 @@ type AnalyzedFnParam struct {
 }
 
 func (self AnalyzedFnParam) String() string {
+	// A singleton extractor must keep referring to the singleton, not to its resolved type.
+	if self.IsSingletonExtractor {
+		return fmt.Sprintf("%s: %s", self.Ident, self.SingletonIdent)
+	}
 	return fmt.Sprintf("%s: %s", self.Ident, self.Type)
 }
 
